@@ -86,9 +86,19 @@ def region_shard(spec, idx, nshards, seed, per_region):
             a2 = dc.outcome_of(spec.decoder, m)
             row2, _ = table_decode(spec.table, m)
             if a2 != a or row2 is not row:
-                acc.errors.append('region of %#x not constant: member %#x gives (%s, %s) vs (%s, %s)' % (
-                    w, m, a2, row2.name if row2 else None, a, row.name if row else None))
-                return acc
+                # the partition is not what the traces promised (a decoder computed with a bit in a way the provenance tracking does not see). Before
+                # calling that a harness error, judge the two concrete words on their own, untraced: a disagreement with the reference table on a
+                # concrete word is a violation whatever the region machinery thought
+                before = sum(acc.viol_n.values())
+                aw = dc.outcome_of(spec.decoder, w)
+                roww, _ = table_decode(spec.table, w)
+                check_word(acc, spec, cpu, w, aw, roww, 'region-witness-rechecked', rng)
+                check_word(acc, spec, cpu, m, a2, row2, 'region-member', rng)
+                if sum(acc.viol_n.values()) == before:
+                    acc.errors.append('region of %#x not constant: member %#x gives (%s, %s) vs (%s, %s)' % (
+                        w, m, a2, row2.name if row2 else None, a, row.name if row else None))
+                    return acc
+                break
             check_word(acc, spec, cpu, m, a2, row2, 'region-member', rng)
     return acc
 
